@@ -53,6 +53,10 @@ CHECKS = {
          "Generated query strings against a small fixed database: grammar-generated statements of the supported subset (random nesting, three quoting styles, aliases, numeric literal forms incl. beyond u64), a catalogue of unsupported constructs the SQL parser accepts, and token- and byte-level mutations of valid statements. The call must return (no caller panic, no hang, no Canceled); an Ok result must have one column per select item in select-list order under the written name or alias (derived with the SQL parser), equally long columns, a row view describing the same cells as the column view, at most LIMIT rows; an unknown table must give an error.",
          "DESIGN.md 4 C12", "The expected names are derived by parsing the text with the same SQL parser crate the engine uses (what the text says), not from the engine's own conversion code; an engine-internal panic that reaches the caller as an error value counts as an error value.",
          "grammar-based and mutation-based fuzzing driven by proptest, well-formedness (validity predicate) oracle"),
+ "C16": ("exploration",
+         "Round-trip oracles over generated inputs: event buffers (native and hand-built wire messages, every column representation, several tables) must decode to the same tables/columns/row counts/cells; query responses with integer sequences built to hit every layout of the integer codec (constant, range, delta and double-delta at the i8/i16/i32 boundaries +-1, extremes whose differences overflow i64, lengths 0-3), float, string, mixed, null and xor columns must decode value for value; xor float compression must be bit-exact without mantissa and keep sign, exponent and the leading m mantissa bits with mantissa m (0..=52), for max_regret in {0,30,100,1000}.",
+         "DESIGN.md 4 C16", "Pure in-process codecs; NaN payloads compared by bit pattern; the server-side column conversion (encode_column) is exercised end-to-end by C17.",
+         "property-based testing (proptest), round-trip (decode o encode) oracle"),
 }
 
 NOT_YET = {
